@@ -10,7 +10,7 @@ from common import driver, proof_stage
 import subgen
 from c15 import run_calls, stats
 
-MODULES = ["CobyqaVerif.Props.C16"]
+MODULES = ["CobyqaVerif.Props.C16", "CobyqaVerif.Props.C15Loop"]
 LEVEL = "proof"
 OWN = ("model-increased", "violation-increased", "magnitude-decreased")
 EPS = subgen.EPS
@@ -127,7 +127,7 @@ def run(chk, rng, replay=None):
             sabs = np.abs(ref) + np.abs(s)
             tol = Fr(1e3 * EPS * c["n"] * (float(np.abs(c["g"]) @ sabs) + float(sabs @ np.abs(c["H"]) @ sabs)) + 1e-300)
             if qs > qr * (1 - Fr(1, 10 ** 6)) + tol:
-                fails.append((c, s, f"cauchy: the bound-constrained tangential step decreases the model less than the Cauchy step along the projected gradient ({float(qs)!r} > {float(qr)!r})", tiny))
+                fails.append((c, s, f"cauchy-ray: the bound-constrained tangential step decreases the model less than the Cauchy step along the projected gradient ({float(qs)!r} > {float(qr)!r})", tiny))
             elif c.get("convex"):
                 # (b) convex models: a fixed fraction of the decrease at the first local minimiser along the projected-gradient PATH
                 n_path += 1
@@ -138,7 +138,7 @@ def run(chk, rng, replay=None):
                 sabs = np.abs(ref) + np.abs(s)
                 tol = Fr(1e3 * EPS * c["n"] * (float(np.abs(c["g"]) @ sabs) + float(sabs @ np.abs(c["H"]) @ sabs)) + 1e-300)
                 if qs > Fr(PATH_FRACTION) * qp + tol:
-                    fails.append((c, s, f"cauchy: convex model, the tangential step achieves less than {PATH_FRACTION} of the decrease at the Cauchy point of the projected-gradient path ({float(qs)!r} vs {float(qp)!r})", tiny))
+                    fails.append((c, s, f"cauchy-path: convex model, the tangential step achieves less than {PATH_FRACTION} of the decrease at the Cauchy point of the projected-gradient path ({float(qs)!r} vs {float(qp)!r})", tiny))
             if qr != 0:
                 worst_gap = max(worst_gap, float((qs - qr) / abs(qr)))
         if c["kind"] == "cauchy":
